@@ -1286,3 +1286,6 @@ def match_assign_none(s, name):
     return isinstance(s, ast.Assign) and len(s.targets) == 1 and unparse(
         s.targets[0]) == name and isinstance(s.value, ast.Constant) \
         and s.value.value is None
+
+# added rules (appended to the explanation the evidence file carries)
+EXPLANATION += (" " + 'Added during the build (DESIGN.md 4.31, second table): EBPF.assemble by abstract execution on four instruction lists against the ISA layout; (R01.11) no subclass of Binary / Unary has a calculate() of its own.')
